@@ -499,12 +499,23 @@ func (o *ObjectSchema) applySubObjectDefaultValues(propertyID string, property *
 		return
 	}
 	data := map[string]any{}
-	if _, ok := rawData[propertyID]; ok {
-		data = rawData[propertyID].(map[string]any)
+	if existing, ok := rawData[propertyID]; ok {
+		// This is the property's own default value. It takes precedence over the defaults of the
+		// sub-object's properties, and it must be copied: it is the schema's decoded default, shared by
+		// every call.
+		existingMap, isMap := existing.(map[string]any)
+		if !isMap {
+			return // not a map (e.g. single-property shorthand): leave it to the property's Unserialize
+		}
+		for k, v := range existingMap {
+			data[k] = v
+		}
 	}
 	subObjectDefaults := subObject.GetDefaults()
 	for k, v := range subObjectDefaults {
-		data[k] = v
+		if _, set := data[k]; !set {
+			data[k] = v
+		}
 	}
 	for subPropertyID, subProperty := range subObject.Properties() {
 		o.applySubObjectDefaultValues(subPropertyID, subProperty, data)
